@@ -7,6 +7,7 @@
 -/
 import Verif.Lemmas.C20
 import Mathlib.Analysis.Complex.ExponentialBounds
+import Mathlib.Analysis.Real.Pi.Bounds
 
 set_option linter.unusedSimpArgs false
 
@@ -491,5 +492,332 @@ theorem specVol_strictAnti (k p w₁ w₂ : ℝ) (h0 : 293.15 ≤ k) (h1 : k ≤
   have key : (dA1 k - dA3 k * p) + (dA2 k - dA4 k * p) * (w₁ + w₂) < 0 := by nlinarith
   have hd : 0 < w₂ - w₁ := by linarith
   nlinarith [mul_pos hd (neg_pos.mpr key)]
+
+/-! ### the complex drag near a surface at non-negative frequencies -/
+
+/-- complex drag near a surface at a non-negative frequency, written out (`S = √(f/f_ν)`) -/
+noncomputable def surfaceDragNN (nu R l f : ℝ) : ℝ × ℝ :=
+  let S := Real.sqrt (f / nu)
+  let r := f / nu
+  let er := (2 * l - R) * S / R
+  let q := 9 / 16 * (R / l)
+  let innerRe := 1 - S / 3 - 4 / 3 * (1 - Real.exp (-er) * Real.cos er)
+  let innerIm := S / 3 + 2 / 9 * r + 4 / 3 * (Real.exp (-er) * Real.sin er)
+  let d1 := 1 - q * innerRe
+  let d2 := -(q * innerIm)
+  let s1 := 1 + S
+  let s2 := -S - 2 / 9 * r
+  ((s1 * d1 + s2 * d2) / (d1 * d1 + d2 * d2), (s2 * d1 - s1 * d2) / (d1 * d1 + d2 * d2))
+
+theorem complexDrag_surface (f g rho R l : ℝ) (hf : 0 ≤ f) (hnu : 0 < frequencyNu g rho R) :
+    complexDrag f g rho R (some l) = surfaceDragNN (frequencyNu g rho R) R l f := by
+  have hr : 0 ≤ f / frequencyNu g rho R := div_nonneg hf hnu.le
+  simp only [complexDrag, stokesDrag, surfaceDen, cdiv, csqrtReal_nonneg _ hr, surfaceDragNN,
+    RealLike.exp, RealLike.cos, RealLike.sin]
+  norm_num
+  constructor <;> ring_nf
+
+theorem surfaceDragNN_zero (nu R l : ℝ) (hR : 0 < R) (hl : R ≤ l) :
+    surfaceDragNN nu R l 0 = (1 / (1 - 9 / 16 * (R / l)), 0) := by
+  have hl0 : 0 < l := by linarith
+  have hq : 9 / 16 * (R / l) < 1 := by
+    have : R / l ≤ 1 := (div_le_one hl0).mpr hl
+    linarith
+  have hne : 1 - 9 / 16 * (R / l) ≠ 0 := by linarith
+  simp only [surfaceDragNN]
+  norm_num
+
+theorem surfaceDragNN_continuousAt (nu R l : ℝ) (hR : 0 < R) (hl : R ≤ l) :
+    ContinuousAt (surfaceDragNN nu R l) 0 := by
+  have hl0 : 0 < l := by linarith
+  have hq : 9 / 16 * (R / l) < 1 := by
+    have : R / l ≤ 1 := (div_le_one hl0).mpr hl
+    linarith
+  have hne : 1 - 9 / 16 * (R / l) ≠ 0 := by linarith
+  unfold surfaceDragNN
+  apply ContinuousAt.prodMk
+  · apply ContinuousAt.div (by fun_prop) (by fun_prop)
+    norm_num
+    exact hne
+  · apply ContinuousAt.div (by fun_prop) (by fun_prop)
+    norm_num
+    exact hne
+
+/-- `e^{−x} sin x ≥ −1/20` for `x ≥ 0` (non-negative up to `π`; beyond, `e^{−x} < e^{−3} < 1/20`) -/
+theorem exp_neg_mul_sin_ge (x : ℝ) (hx : 0 ≤ x) : -(1 / 20) ≤ Real.exp (-x) * Real.sin x := by
+  have he := Real.exp_pos (-x)
+  by_cases hpi : x ≤ Real.pi
+  · have := Real.sin_nonneg_of_nonneg_of_le_pi hx hpi
+    have := mul_nonneg he.le this
+    linarith
+  · have h3 : 3 < x := by have := Real.pi_gt_three; linarith [not_le.mp hpi]
+    have hexp : Real.exp (-x) ≤ 1 / 20 := by
+      have h1 : Real.exp (-x) ≤ Real.exp (-3) := Real.exp_le_exp.mpr (by linarith)
+      have h2 : Real.exp (-3) ≤ 1 / 20 := by
+        rw [Real.exp_neg]
+        have e3 : Real.exp 3 = Real.exp 1 * Real.exp 1 * Real.exp 1 := by
+          rw [← Real.exp_add, ← Real.exp_add]; norm_num
+        have hgt := Real.exp_one_gt_d9
+        have : (20:ℝ) ≤ Real.exp 3 := by rw [e3]; nlinarith
+        rw [inv_le_comm₀ (by positivity) (by norm_num)]
+        norm_num
+        linarith
+      linarith
+    have hs := Real.neg_one_le_sin x
+    nlinarith
+
+/-- algebraic core: with `EC = e^{−ε}cos ε ≤ 1` the real part `d₁` of the denominator of Eq. D6 is at least `1 − q` -/
+theorem surface_den_re_ge (S q EC : ℝ) (hS0 : 0 ≤ S) (hq0 : 0 ≤ q) (hEC : EC ≤ 1) :
+    1 - q ≤ 1 - q * (1 - S / 3 - 4 / 3 * (1 - EC)) := by
+  have h : 1 - S / 3 - 4 / 3 * (1 - EC) ≤ 1 := by linarith
+  have := mul_le_mul_of_nonneg_left h hq0
+  linarith
+
+/-- algebraic core: the numerator of `Re γ/γ₀` is positive (`ES = e^{−ε} sin ε ≥ −1/20`, `q ≤ 9/16`) -/
+theorem surface_re_num_pos (S q d1 ES : ℝ) (hS0 : 0 ≤ S) (hq0 : 0 ≤ q) (hq1 : q ≤ 9 / 16) (hd1 : 1 - q ≤ d1)
+    (hES : -(1 / 20) ≤ ES) :
+    0 < (1 + S) * d1 + (-S - 2 / 9 * S ^ 2) * -(q * (S / 3 + 2 / 9 * S ^ 2 + 4 / 3 * ES)) := by
+  obtain ⟨v, hv⟩ : ∃ x : ℝ, x = S / 3 + 2 / 9 * S ^ 2 + 4 / 3 * ES := ⟨_, rfl⟩
+  rw [← hv]
+  have hvlo : S / 3 + 2 / 9 * S ^ 2 - 1 / 15 ≤ v := by rw [hv]; linarith
+  have hnum : (1 + S) * d1 + (-S - 2 / 9 * S ^ 2) * -(q * v) = (1 + S) * d1 + q * ((S + 2 / 9 * S ^ 2) * v) := by ring
+  rw [hnum]
+  have hu0 : 0 ≤ S + 2 / 9 * S ^ 2 := by positivity
+  have hd1p : 0 < d1 := by linarith
+  have hmain : 1 - q ≤ (1 + S) * d1 := by
+    have : d1 ≤ (1 + S) * d1 := by nlinarith
+    linarith
+  by_cases hv0 : 0 ≤ v
+  · have : 0 ≤ q * ((S + 2 / 9 * S ^ 2) * v) := by positivity
+    linarith
+  · have hv' : v < 0 := not_le.mp hv0
+    have hS2 : 0 ≤ S ^ 2 := sq_nonneg S
+    have hu1 : S + 2 / 9 * S ^ 2 ≤ 1 / 5 := by linarith
+    have hv15 : -(1 / 15) ≤ v := by linarith
+    have huv : -(1 / 75) ≤ (S + 2 / 9 * S ^ 2) * v := by
+      have h1 : (S + 2 / 9 * S ^ 2) * v ≥ (S + 2 / 9 * S ^ 2) * -(1 / 15) := mul_le_mul_of_nonneg_left hv15 hu0
+      have h2 : (S + 2 / 9 * S ^ 2) * (1 / 15) ≤ 1 / 5 * (1 / 15) := mul_le_mul_of_nonneg_right hu1 (by norm_num)
+      linarith
+    have : -(q / 75) ≤ q * ((S + 2 / 9 * S ^ 2) * v) := by
+      have := mul_le_mul_of_nonneg_left huv hq0
+      linarith
+    linarith
+
+/-- the real part of the complex drag near a surface is positive at every non-negative frequency -/
+theorem surfaceDragNN_re_pos (nu R l f : ℝ) (hnu : 0 < nu) (hf : 0 ≤ f) (hR : 0 < R) (hl : R ≤ l) :
+    0 < (surfaceDragNN nu R l f).1 := by
+  have hl0 : 0 < l := by linarith
+  simp only [surfaceDragNN]
+  have hrr : 0 ≤ f / nu := div_nonneg hf hnu.le
+  obtain ⟨S, hS⟩ : ∃ S : ℝ, S = Real.sqrt (f / nu) := ⟨_, rfl⟩
+  have hS0 : 0 ≤ S := by rw [hS]; exact Real.sqrt_nonneg _
+  have hr : f / nu = S ^ 2 := by rw [hS, Real.sq_sqrt hrr]
+  rw [← hS, hr]
+  obtain ⟨er, her⟩ : ∃ e : ℝ, e = (2 * l - R) * S / R := ⟨_, rfl⟩
+  have her0 : 0 ≤ er := by rw [her]; apply div_nonneg (mul_nonneg (by linarith) hS0) hR.le
+  rw [← her]
+  obtain ⟨q, hq⟩ : ∃ q : ℝ, q = 9 / 16 * (R / l) := ⟨_, rfl⟩
+  have hq0 : 0 ≤ q := by rw [hq]; positivity
+  have hq1 : q ≤ 9 / 16 := by
+    have : R / l ≤ 1 := (div_le_one hl0).mpr hl
+    rw [hq]; linarith
+  rw [← hq]
+  have hE1 : Real.exp (-er) ≤ 1 := by rw [Real.exp_le_one_iff]; linarith
+  have hE0 := Real.exp_pos (-er)
+  have hEC : Real.exp (-er) * Real.cos er ≤ 1 := by
+    have h1 := Real.cos_le_one er
+    have := mul_le_mul_of_nonneg_left h1 hE0.le
+    linarith
+  have hES := exp_neg_mul_sin_ge er her0
+  generalize Real.exp (-er) * Real.cos er = EC at *
+  generalize Real.exp (-er) * Real.sin er = ES at *
+  have hd1lo := surface_den_re_ge S q EC hS0 hq0 hEC
+  obtain ⟨d1, hd1⟩ : ∃ x : ℝ, x = 1 - q * (1 - S / 3 - 4 / 3 * (1 - EC)) := ⟨_, rfl⟩
+  rw [← hd1] at hd1lo ⊢
+  have hd1p : 0 < d1 := by linarith
+  have hnum := surface_re_num_pos S q d1 ES hS0 hq0 hq1 hd1lo hES
+  apply div_pos hnum
+  have := mul_self_nonneg (-(q * (S / 3 + 2 / 9 * S ^ 2 + 4 / 3 * ES)))
+  have := mul_pos hd1p hd1p
+  linarith
+
+
+/-! ### temperature dependence of Eq. 3 -/
+
+/-- the water exponent of Eq. 3 decreases strictly with temperature on 20–150 °C -/
+theorem waterExp_strictAnti (t₁ t₂ : ℝ) (h0 : 20 ≤ t₁) (h12 : t₁ < t₂) (h1 : t₂ ≤ 150) : waterExp t₂ < waterExp t₁ := by
+  unfold waterExp
+  obtain ⟨v₁, rfl⟩ : ∃ v : ℝ, t₁ = v + 20 := ⟨t₁ - 20, by ring⟩
+  obtain ⟨v₂, rfl⟩ : ∃ v : ℝ, t₂ = v + 20 := ⟨t₂ - 20, by ring⟩
+  have a0 : 0 ≤ v₁ := by linarith
+  have a1 : v₁ ≤ 130 := by linarith
+  have b0 : 0 ≤ v₂ := by linarith
+  have b1 : v₂ ≤ 130 := by linarith
+  have hd : 0 < v₂ - v₁ := by linarith
+  rw [div_lt_div_iff₀ (by linarith) (by linarith)]
+  have e1 : (20 - (v₁ + 20) : ℝ) = -v₁ := by ring
+  have e2 : (20 - (v₂ + 20) : ℝ) = -v₂ := by ring
+  rw [e1, e2]
+  -- products of the two shifted temperatures, each in [0, 130]
+  have p11 : v₁ * v₂ ≤ 16900 := by nlinarith
+  have p11' : 0 ≤ v₁ * v₂ := mul_nonneg a0 b0
+  have q1 : v₁ ^ 2 ≤ 16900 := by nlinarith
+  have q2 : v₂ ^ 2 ≤ 16900 := by nlinarith
+  obtain ⟨r3, hr3⟩ : ∃ r : ℝ, r = v₁ ^ 2 + v₁ * v₂ + v₂ ^ 2 := ⟨_, rfl⟩
+  obtain ⟨r4, hr4⟩ : ∃ r : ℝ, r = v₁ ^ 3 + v₁ ^ 2 * v₂ + v₁ * v₂ ^ 2 + v₂ ^ 3 := ⟨_, rfl⟩
+  have hr3b : r3 ≤ 50700 := by rw [hr3]; linarith
+  have hr3p : 0 ≤ r3 := by rw [hr3]; positivity
+  have hr4b : r4 ≤ 8788000 := by
+    rw [hr4]
+    have c1 : v₁ ^ 3 ≤ 130 * 16900 := by nlinarith [mul_nonneg a0 (sq_nonneg v₁)]
+    have c2 : v₁ ^ 2 * v₂ ≤ 16900 * 130 := by nlinarith [mul_nonneg b0 (sq_nonneg v₁)]
+    have c3 : v₁ * v₂ ^ 2 ≤ 130 * 16900 := by nlinarith [mul_nonneg a0 (sq_nonneg v₂)]
+    have c4 : v₂ ^ 3 ≤ 130 * 16900 := by nlinarith [mul_nonneg b0 (sq_nonneg v₂)]
+    linarith
+  have hs : 0 ≤ v₁ + v₂ := by linarith
+  have key : 116 * (-1.2378 - 1.303e-3 * (v₁ + v₂) - 3.06e-6 * r3 + 2.55e-8 * r4)
+      + v₁ * v₂ * (-1.303e-3 - 3.06e-6 * (v₁ + v₂) + 2.55e-8 * r3) < 0 := by
+    have t1 : v₁ * v₂ * (2.55e-8 * r3) ≤ 16900 * (2.55e-8 * 50700) := by
+      apply mul_le_mul p11 (by linarith) (by positivity) (by norm_num)
+    have t2 : v₁ * v₂ * (-1.303e-3 - 3.06e-6 * (v₁ + v₂)) ≤ 0 :=
+      mul_nonpos_of_nonneg_of_nonpos p11' (by nlinarith)
+    nlinarith
+  have e : (1.2378 * -v₂ + -1.303e-3 * (-v₂) ^ 2 + 3.06e-6 * (-v₂) ^ 3 + 2.55e-8 * (-v₂) ^ 4) * (96 + (v₁ + 20))
+      - (1.2378 * -v₁ + -1.303e-3 * (-v₁) ^ 2 + 3.06e-6 * (-v₁) ^ 3 + 2.55e-8 * (-v₁) ^ 4) * (96 + (v₂ + 20))
+      = (v₂ - v₁) * (116 * (-1.2378 - 1.303e-3 * (v₁ + v₂) - 3.06e-6 * r3 + 2.55e-8 * r4)
+          + v₁ * v₂ * (-1.303e-3 - 3.06e-6 * (v₁ + v₂) + 2.55e-8 * r3)) := by
+    rw [hr3, hr4]; ring
+  have := mul_neg_of_pos_of_neg hd key
+  linarith
+
+/-- `1 + B(m) > 0` on `[0, 6]` -/
+theorem one_add_B_pos (m : ℝ) (h0 : 0 ≤ m) (h6 : m ≤ 6) : 0 < 1 + (-3.96e-2 * m + 1.02e-2 * m ^ 2 + -7.02e-4 * m ^ 3) := by
+  have m3 : m ^ 3 ≤ 216 := by
+    have : m ^ 3 ≤ 6 ^ 3 := pow_le_pow_left₀ h0 h6 3
+    linarith
+  have : 0 ≤ m ^ 2 := by positivity
+  nlinarith
+
+
+/-! ### density bounds, `molality_to_molarity` and the residual of `molarity_to_molality` -/
+
+theorem dT1_ub (k : ℝ) (h0 : 293.15 ≤ k) (h1 : k ≤ 423.15) : dT1 k ≤ 2e-3 := by
+  have hk : 0 < k := by linarith
+  have e : dT1 k = (1.006741e2 + -1.127522 * k + 5.916365e-3 * k ^ 2 + -1.035794e-5 * k ^ 3 + 9.270048e-9 * k ^ 4) / k ^ 2 := by
+    unfold dT1; field_simp
+  rw [e, div_le_iff₀ (by positivity)]
+  obtain ⟨x, rfl⟩ : ∃ x : ℝ, k = x + 293.15 := ⟨k - 293.15, by ring⟩
+  have hx : 0 ≤ x := by linarith
+  have hx1 : x ≤ 130 := by linarith
+  have x3 : x ^ 3 ≤ 130 ^ 3 := pow_le_pow_left₀ hx hx1 3
+  have x4 : x ^ 4 ≤ 130 ^ 4 := pow_le_pow_left₀ hx hx1 4
+  nlinarith [pow_nonneg hx 2]
+
+theorem dT2_nonneg (k : ℝ) (h0 : 293.15 ≤ k) (h1 : k ≤ 423.15) : 0 ≤ dT2 k := by
+  have hk : 0 < k := by linarith
+  have e : dT2 k = (1.042948 + -1.1933677e-2 * k + 5.307535e-5 * k ^ 2 + -1.0688768e-7 * k ^ 3 + 8.492739e-11 * k ^ 4) / k ^ 2 := by
+    unfold dT2; field_simp
+  rw [e]
+  apply div_nonneg _ (by positivity)
+  obtain ⟨x, rfl⟩ : ∃ x : ℝ, k = x + 293.15 := ⟨k - 293.15, by ring⟩
+  have hx : 0 ≤ x := by linarith
+  have hx1 : x ≤ 130 := by linarith
+  have x3 : x ^ 3 ≤ 130 * x ^ 2 := by nlinarith [pow_nonneg hx 2]
+  nlinarith [pow_nonneg hx 2, pow_nonneg hx 4]
+
+theorem dT3_lb (k : ℝ) (h1 : k ≤ 423.15) : -1.7e-9 ≤ dT3 k := by unfold dT3; nlinarith
+theorem dT8_nonneg (k : ℝ) : 0 ≤ dT8 k := by unfold dT8; nlinarith [sq_nonneg (k - 303.7)]
+
+/-- the specific volume stays below 2.5e-3 m³/kg (density above 400 kg/m³) on the validity range -/
+theorem specVol_ub (k p w : ℝ) (h0 : 293.15 ≤ k) (h1 : k ≤ 423.15) (hp0 : 0 ≤ p) (hp1 : p ≤ 35) (hw0 : 0 ≤ w)
+    (hw1 : w ≤ 0.26) : specVol k p w < 2.5e-3 := by
+  unfold specVol
+  have a := dT1_ub k h0 h1
+  have b := dT2_nonneg k h0 h1
+  have c := dT3_lb k h1
+  have d := dT8_nonneg k
+  obtain ⟨e1, e2⟩ := dA1_bounds k h0 h1
+  obtain ⟨f1, f2⟩ := dA2_bounds k h0 h1
+  obtain ⟨g1, g2⟩ := dA3_bounds k h0 h1
+  obtain ⟨i1, i2⟩ := dA4_bounds k h0 h1
+  have hp2 : p ^ 2 ≤ 1225 := by nlinarith
+  have hp2' : 0 ≤ p ^ 2 := by positivity
+  have t2 : 0 ≤ dT2 k * p := mul_nonneg b hp0
+  have t3 : -(1.7e-9 * 1225) ≤ dT3 k * p ^ 2 := by nlinarith
+  have t8 : 0 ≤ 0.5 * dT8 k * p ^ 2 := by positivity
+  have al : dA1 k - dA3 k * p ≤ 0 := by nlinarith
+  have be : dA2 k - dA4 k * p ≤ 3.4e-4 := by nlinarith [mul_nonneg i1 hp0]
+  have wa : w * (dA1 k - dA3 k * p) ≤ 0 := mul_nonpos_of_nonneg_of_nonpos hw0 al
+  have hw2 : w ^ 2 ≤ 0.0676 := by nlinarith
+  have wb : w ^ 2 * (dA2 k - dA4 k * p) ≤ 0.0676 * 3.4e-4 := by nlinarith [sq_nonneg w]
+  nlinarith
+
+theorem molalityToMolarity_real (t m p : ℝ) :
+    molalityToMolarity t m p = m / (1000 * (1 + 58.4428 * m * 1e-3) / saltDensity t m p) := by
+  simp only [molalityToMolarity]; norm_num
+
+/-- density of the solution on the validity range: between 400 and 2000 kg/m³ -/
+theorem saltDensity_bounds (t m p : ℝ) (ht0 : 20 ≤ t) (ht1 : t ≤ 150) (hp0 : 0 ≤ p) (hp1 : p ≤ 35) (h0 : 0 ≤ m)
+    (h6 : m ≤ 6) : 400 < saltDensity t m p ∧ saltDensity t m p < 2000 := by
+  rw [saltDensity_real]
+  have k0 : (293.15:ℝ) ≤ t + 273.15 := by linarith
+  have k1 : t + 273.15 ≤ (423.15:ℝ) := by linarith
+  obtain ⟨a0, a1⟩ := wfrac_bounds m h0 h6
+  have lo := specVol_pos (t + 273.15) p (wfrac m) k0 k1 hp0 hp1 a0 a1
+  have hi := specVol_ub (t + 273.15) p (wfrac m) k0 k1 hp0 hp1 a0 a1
+  have hpos : 0 < specVol (t + 273.15) p (wfrac m) := by linarith
+  constructor
+  · rw [lt_div_iff₀ hpos]; linarith
+  · rw [div_lt_iff₀ hpos]; linarith
+
+/-- The residual whose root `molarity_to_molality` asks `brentq` for vanishes at a molality `m` exactly when a
+    solution of that molality has the molarity asked for (molarity up to 6 M, where the denominator of the residual
+    is positive). -/
+theorem molalityResidual_zero_iff (t c p m : ℝ) (ht0 : 20 ≤ t) (ht1 : t ≤ 150) (hp0 : 0 ≤ p) (hp1 : p ≤ 35)
+    (hc0 : 0 ≤ c) (hc6 : c ≤ 6) (h0 : 0 ≤ m) (h6 : m ≤ 6) :
+    molalityResidual t c p m = 0 ↔ molalityToMolarity t m p = c := by
+  obtain ⟨lo, hi⟩ := saltDensity_bounds t m p ht0 ht1 hp0 hp1 h0 h6
+  rw [molalityToMolarity_real]
+  simp only [molalityResidual]
+  generalize saltDensity t m p = ρ at *
+  have hρ : 0 < ρ := by linarith
+  have hden : 0 < ρ * 1e-3 - 58.4428 * c * 1e-3 := by nlinarith
+  have hk : (0:ℝ) < 1000 * (1 + 58.4428 * m * 1e-3) := by positivity
+  have e3 : (1.0e-3 : ℝ) = 1e-3 := by norm_num
+  rw [e3]
+  constructor
+  · intro h
+    have h' : c / (ρ * 1e-3 - 58.4428 * c * 1e-3) = m := by linarith
+    rw [div_eq_iff hden.ne'] at h'
+    rw [div_div_eq_mul_div, div_eq_iff hk.ne']
+    nlinarith
+  · intro h
+    rw [div_div_eq_mul_div, div_eq_iff hk.ne'] at h
+    have : c / (ρ * 1e-3 - 58.4428 * c * 1e-3) = m := by
+      rw [div_eq_iff hden.ne']; nlinarith
+    linarith
+
+/-- the molality that was converted to a molarity is a root of the residual `molarity_to_molality` solves -/
+theorem molalityResidual_round_trip (t p m : ℝ) (ht0 : 20 ≤ t) (ht1 : t ≤ 150) (hp0 : 0 ≤ p) (hp1 : p ≤ 35)
+    (h0 : 0 ≤ m) (h6 : m ≤ 6) : molalityResidual t (molalityToMolarity t m p) p m = 0 := by
+  obtain ⟨lo, hi⟩ := saltDensity_bounds t m p ht0 ht1 hp0 hp1 h0 h6
+  rw [molalityToMolarity_real]
+  simp only [molalityResidual]
+  generalize saltDensity t m p = ρ at *
+  have hρ : 0 < ρ := by linarith
+  have hk : (0:ℝ) < 1000 + 58.4428 * m := by positivity
+  have e3 : (1.0e-3 : ℝ) = 1e-3 := by norm_num
+  rw [e3]
+  have hc : m / (1000 * (1 + 58.4428 * m * 1e-3) / ρ) = m * ρ / (1000 + 58.4428 * m) := by
+    field_simp
+    ring
+  rw [hc]
+  have hden : ρ * 1e-3 - 58.4428 * (m * ρ / (1000 + 58.4428 * m)) * 1e-3 = ρ / (1000 + 58.4428 * m) := by
+    field_simp
+    ring
+  rw [hden]
+  field_simp
+  ring
+
 
 end Verif.C20
